@@ -1072,23 +1072,25 @@ func evalTyped(d typedDesc) ev.Result {
 	return res
 }
 
-func typedSubs(r *ev.Run) {
-	r.SetRule("typed", "per Go shape (structs with weights / ignored / omitempty / embedded / pointer fields, fixed arrays, slices, maps, Tag/Bstr/ByteWrap/RawBytes/Timestamp generics, COSE Sign1/Mac0/Encrypt0 with header maps, FDO Hash/PublicKey/RvInfo/To1d/ErrorMessage/VoucherHeader/VoucherEntryPayload/Voucher/DeviceCredential/KV/DevmodModulesChunk) a rapid-generated value; oracle: Marshal(v) equals the canonical encoding of a hand-written reference tree (from cbor/doc.go and the FDO CDDL), is deterministic and canonical; Unmarshal(reference bytes) deep-equals v (nil/empty containers identified); re-Marshal reproduces the bytes. Non-trivial: every struct/FDO shape; maps only with ≥2 keys; distinct by (shape, spec).")
+func genTyped(t *rapid.T) typedDesc {
+	smallOnly = true
+	defer func() { smallOnly = false }()
 	names := make([]string, len(shapes))
 	for i := range shapes {
 		names[i] = shapes[i].name
 	}
-	ev.Rapid(r, "typed", ev.N{Quick: 30000, Thorough: 1500000}, func(t *rapid.T) typedDesc {
-		smallOnly = true
-		defer func() { smallOnly = false }()
-		name := rapid.SampledFrom(names).Draw(t, "shape")
-		spec := shapeIdx[name].gen(t)
-		raw, err := json.Marshal(spec)
-		if err != nil {
-			panic(err)
-		}
-		return typedDesc{Shape: name, Spec: raw}
-	}, evalTyped)
+	name := rapid.SampledFrom(names).Draw(t, "shape")
+	spec := shapeIdx[name].gen(t)
+	raw, err := json.Marshal(spec)
+	if err != nil {
+		panic(err)
+	}
+	return typedDesc{Shape: name, Spec: raw}
+}
+
+func typedSubs(r *ev.Run) {
+	r.SetRule("typed", "per Go shape (structs with weights / ignored / omitempty / embedded / pointer fields, fixed arrays, slices, maps, Tag/Bstr/ByteWrap/RawBytes/Timestamp generics, COSE Sign1/Mac0/Encrypt0 with header maps, FDO Hash/PublicKey/RvInfo/To1d/ErrorMessage/VoucherHeader/VoucherEntryPayload/Voucher/DeviceCredential/KV/DevmodModulesChunk) a rapid-generated value; oracle: Marshal(v) equals the canonical encoding of a hand-written reference tree (from cbor/doc.go and the FDO CDDL), is deterministic and canonical; Unmarshal(reference bytes) deep-equals v (nil/empty containers identified); re-Marshal reproduces the bytes. Non-trivial: every struct/FDO shape; maps only with ≥2 keys; distinct by (shape, spec).")
+	ev.Rapid(r, "typed", ev.N{Quick: 30000, Thorough: 1500000}, genTyped, evalTyped)
 	ev.CheckWitness(r, "typed", evalTyped)
 	ev.CheckWitness(r, "any", evalAny)
 	ev.CheckWitness(r, "ints", evalInt)
